@@ -264,6 +264,61 @@ def estimator_schedule_twin(kinds: List[bool], times: List[float], initialize: b
     return ok and len(rec["predict_dt"]) >= 2 and len(rec["accel_t"]) >= 2
 
 
+def _due(kinds: List[bool], times: List[float]):
+    """(C12, rate settings) a due correction is not skipped: once initialised, an IMU sample with dt > 0 that arrives at
+    least dt_min_accel - 1 ms after the previous accelerometer correction is used for a correction at that very sample;
+    likewise for magnetometer samples and dt_min_mag"""
+    core, est, rec = _estimator(False)
+    dtmin_a = est.dt_min_accel.get()
+    dtmin_m = est.dt_min_mag.get()
+    eps = est.time_eps
+    last_a = 0.0
+    last_m = 0.0
+    last_imu = 0.0
+    ok = True
+    for is_imu, t in zip(kinds, times):
+        if is_imu:
+            n_before = len(rec["accel_t"])
+            est.imu_callback(_DictMsg(time=t, gyro=np.zeros(3), accel=np.array([0.0, 0, 9.8])))
+            ran = len(rec["accel_t"]) > n_before
+            if t - last_imu > 0 and t - last_a >= dtmin_a - eps:
+                ok = ok and ran
+            if ran:
+                last_a = t
+            last_imu = t
+        else:
+            rec["mag_now"] = t
+            n_before = len(rec["mag_t"])
+            est.mag_callback(_DictMsg(time=t, mag=np.array([1.0, 0, 0])))
+            ran = len(rec["mag_t"]) > n_before
+            if t - last_m >= dtmin_m - eps:
+                ok = ok and ran
+            if ran:
+                last_m = t
+    return ok, rec
+
+
+def estimator_due(kinds: List[bool], times: List[float]) -> bool:
+    """
+    a due accelerometer / magnetometer correction is never skipped, for any arrival pattern
+    pre: len(kinds) == len(times) and len(times) <= 3
+    pre: all(0.0 <= t <= 100.0 for t in times)
+    post: _ == True
+    """
+    ok, rec = _due(kinds, times)
+    return ok
+
+
+def estimator_due_twin(kinds: List[bool], times: List[float]) -> bool:
+    """
+    pre: len(kinds) == len(times) and len(times) <= 3
+    pre: all(0.0 <= t <= 100.0 for t in times)
+    post: _ == False
+    """
+    ok, rec = _due(kinds, times)
+    return ok and len(rec["accel_t"]) >= 2 and len(rec["predict_dt"]) >= 3
+
+
 # ---- logger ---------------------------------------------------------------------------------------------------------
 
 class _ImuMsg(msgs.Imu):
